@@ -193,20 +193,61 @@ def run_shard(prefs):
     return part.result()
 
 
+def run_extras(_):
+    """the base model plus each construct beyond the abstract model (records, scalar sets, functions, channel priorities, before /
+    after update, progress, gantt, ...), alone and all together: writing must not crash or throw, the file must be well-formed and
+    its template graph must mirror the document"""
+    sys.path.insert(0, os.path.dirname(os.path.abspath(__file__)))
+    import c05
+    part = engine.Part()
+    w = engine.worker("san" if os.environ.get("C20_SAN") else "fast")
+    sets = [[e] for e in c05.EXTRAS] + [[e for e in c05.EXTRAS if e[0] != "post"] + [c05.EXTRAS[-1]]]
+    models = [c05.with_extras(picks) for picks in sets]
+    docs = [MG.render_xml(m) for m in models]
+    res = xmlgen.run_docs(w, docs, want=["dump", "nosymtypes", "write"], batch=10)
+    for picks, m, doc, resp in zip(sets, models, docs, res):
+        part.count()
+        key = "extras:" + "|".join(t.strip()[:25] for _, t in picks)[:120]
+        rp = {"op": "xml", "buf": doc, "want": ["dump", "nosymtypes", "write"]}
+        if resp.get("died"):
+            part.outcome("writer-crashes")
+            part.violation("crash:%s:extras" % engine.crash_signature(resp), "parse+write of an accepted model kills the process (%s): %s" %
+                           (engine.crash_signature(resp), key), rp)
+            continue
+        if not xmlgen.accepted(resp):
+            raise RuntimeError("C20 generator bug: model with extras not accepted: %s %s" % (key, xmlgen.msgs(resp)[:2]))
+        part.nontrivial_case(key)
+        if resp.get("write_exc") or resp.get("write_rc") != 0:
+            part.outcome("writer-throws")
+            part.violation("writer-throws:%s:extras" % resp.get("write_exc"), "write_XML_file fails on an accepted model: rc=%s exc=%s %s (%s)" %
+                           (resp.get("write_rc"), resp.get("write_exc"), resp.get("write_what"), key), rp)
+            continue
+        bad = check_written(m, resp["dump"], resp.get("written", ""))
+        if bad:
+            part.outcome("graph-differs")
+            for sig, detail in bad[:4]:
+                part.violation("graph:%s:extras" % sig, detail + " (%s)" % key, rp)
+        else:
+            part.outcome("graph-ok/extras")
+    return part.result()
+
+
 def main():
     b = bound()
     rep = engine.Report(PID, "exploration",
                         "every accepted model of the C04 choice-tree space (<= %d deviations; self loops, parallel edges, label subsets, "
                         "urgent/committed, anonymous locations, branchpoint edges): parse -> write_XML_file -> independent reader "
                         "(ElementTree) -> compare locations/ids/names/labels/init/transitions/controllable/label presence with the "
-                        "document; written file parsed again to compare the label expressions. Models with branchpoint edges: "
-                        "only 'writing never crashes'." % b)
+                        "document; written file parsed again to compare the label expressions; branchpoint references are compared like "
+                        "those of locations. Plus the base model with each of the 21 constructs beyond the abstract model (C05's texts) and "
+                        "with all of them." % b)
     prefs = choice.prefixes(gen, b)
     n = engine.ncpu()
     chunk = max(1, min(200, len(prefs) // (n * 4) + 1))
     shards = [prefs[i:i + chunk] for i in range(0, len(prefs), chunk)]
     for res in engine.pmap(run_shard, shards):
         rep.merge(res)
+    rep.merge(run_extras(None))
     rep.extra["choice_sequences"] = len(prefs)
     rep.assumptions = ["Python's xml.etree.ElementTree is the independent XML parser",
                        "label text is judged by re-parsing the written file with the library and comparing expression trees",
